@@ -819,6 +819,31 @@ class ContractSet:
                 loc[p] = va.items[k]
         sfr = self.clause_frame(c, loc)
         caller = I.verifying
+        # implicit pre-condition: an argument the contract types as an object of class Q is an instance of Q
+        for pn, pt in c.params.items():
+            if pn in loc and isinstance(pt, str) and (pt.startswith("obj:") or pt.startswith("sub:")):
+                try:
+                    want = I.class_by_qual(pt[4:])
+                except Exception:       # noqa
+                    continue
+                av = loc[pn]
+                alts = av.alts if isinstance(av, VUnion) else [(z3.BoolVal(True), av)]
+                oks = []
+                decided = True
+                for g_, a_ in alts:
+                    if isinstance(a_, VRef) and I.hobj(a_).kind == "inst" and I.hobj(a_).cls is not None:
+                        if any(kc is want for kc in I.hobj(a_).cls.mro()):
+                            oks.append(g_)
+                    elif isinstance(a_, (VNone, VInt, VBool, VStr, VBytes, VTuple, VFloat)):
+                        pass
+                    else:
+                        decided = False
+                if decided and len(oks) != len(alts):
+                    t_ = z3.Or(oks) if oks else z3.BoolVal(False)
+                    if not P.known(t_):
+                        P.oblige(f"{caller}.call.{c.target.split('.', 1)[-1]}.pre.type.{pn}", t_,
+                                 {"clause": f"isinstance({pn}, {want.name})", "callee": c.target})
+                        P.assume(t_)
         for k, src in enumerate(c.requires):
             try:
                 t = self.eval_clause(I, c, src, sfr, assuming=False)
